@@ -174,6 +174,12 @@ structure Ammo where
   hdrs : Hdrs
 deriving DecidableEq, Repr, Inhabited
 
+/-- `decoders/ammo.RawAmmo` after `Setup` (no configured headers) -/
+structure RawAmmo where
+  frame : Bytes
+  tag : Bytes
+deriving DecidableEq, Repr, Inhabited
+
 /-- what the gun receives: the canonical observation of one `*http.Request` + tag -/
 structure Req where
   method : Bytes
@@ -230,7 +236,7 @@ def hostOK (h : Bytes) : Bool :=
   let p := cut COLON h
   !p.1.isEmpty && p.1.all isHostByte && (!p.2.2 || (!p.2.1.isEmpty && p.2.1.all isDigit))
 
-def httpPrefix : Bytes := ofStr "http://"
+def httpPrefix : Bytes := [104, 116, 116, 112, 58, 47, 47]   -- "http://"
 
 /-- `url.Parse` as far as the model knows it: `(Host, RequestURI)`; `none` = outside the modelled class -/
 def parseURL (u : Bytes) : Option (Bytes × Bytes) :=
@@ -243,9 +249,9 @@ def parseURL (u : Bytes) : Option (Bytes × Bytes) :=
     if p.2.2 && (host.isEmpty || hostOK host) && uriOK path then some (host, path) else none
   else none
 
-def hostKey : Bytes := ofStr "Host"
-def getBytes : Bytes := ofStr "GET"
-def postBytes : Bytes := ofStr "POST"
+def hostKey : Bytes := [72, 111, 115, 116]    -- "Host"
+def getBytes : Bytes := [71, 69, 84]          -- "GET"
+def postBytes : Bytes := [80, 79, 83, 84]     -- "POST"
 
 /-- `Ammo.BuildRequest`: `http.NewRequest` + `EnrichRequestWithHeaders` -/
 def buildReq (a : Ammo) : Option Req :=
@@ -257,6 +263,12 @@ def buildReq (a : Ammo) : Option Req :=
            uri := ruri, host := host'
            hdrs := sortHdrs (a.hdrs.filter (fun kv => kv.1 != hostKey))
            body := a.body, tag := a.tag }
+
+/-- all present, or nothing -/
+def allSome {α : Type} : List (Option α) → Option (List α)
+  | [] => some []
+  | none :: _ => none
+  | some a :: r => (allSome r).map (a :: ·)
 
 /-! ### provider level: passes, wrap-around, limit -/
 
